@@ -11,15 +11,15 @@ COMPOSED = ("C", "M", "B", "P")   # control flows that decide by themselves (raw
 
 
 def parse_info(s):
-    """'n=1,2 i=1:3,2:4 r=2:4:1000 m=5' -> dict"""
-    m = re.match(r"n=(\S+) i=(\S+) r=(\S+) m=(-?\d+)", s)
+    """'n=1,2 i=1:3,2:4 r=2:4:1000 m=5 l=101' -> dict"""
+    m = re.match(r"n=(\S+) i=(\S+) r=(\S+) m=(-?\d+) l=(\S+)", s)
     if not m:
         raise ValueError("bad info: " + s)
     lst = lambda x: [] if x == "-" else x.split(",")
     nodes = [int(x) for x in lst(m.group(1))]
     ids = [tuple(int(y) for y in x.split(":")) for x in lst(m.group(2))]
     rms = [tuple(int(y) for y in x.split(":")) for x in lst(m.group(3))]
-    return dict(nodes=nodes, ids=ids, rm=rms, max=int(m.group(4)))
+    return dict(nodes=nodes, ids=ids, rm=rms, max=int(m.group(4)), lrn=[int(x) for x in lst(m.group(5))])
 
 
 def parse_out(o):
@@ -30,7 +30,7 @@ def parse_out(o):
         a["gen"] = int(m.group(2))
         a["ok"] = m.group(3) == "ok"
         atts.append(a)
-    sm = re.match(r"reg\[(.*) e=(\d+)\] wait=(\S+) un=(\d) au=(\d) ne=(\d+) st=(\d+) dn=(\S+) rn=(\S+) fail=(\d+)", st)
+    sm = re.match(r"reg\[(.*) e=(\d+)\] wait=(\S+) un=(\d) au=(\d) ne=(\d+) st=(\d+) dn=(\S+) rn=(\S+) fail=(\d+) ln=(\S+) ls=(\S+)", st)
     if not sm:
         raise ValueError("bad state: " + st)
     state = dict(info=parse_info(sm.group(1)), epoch=int(sm.group(2)), wait=sm.group(3), unstable=sm.group(4) == "1",
@@ -55,8 +55,10 @@ def inv_fail(w, replica):
         return "two replicas share a raft id"
     if any(v > w["max"] for v in idv):
         return "a raft id exceeds MaxRaftID"
-    if sorted(i[0] for i in ids) != sorted(nodes):
-        return "RaftIDs keys differ from RaftNodes"
+    if len(set(w["lrn"])) != len(w["lrn"]) or set(w["lrn"]) & set(nodes):
+        return "learner list has duplicates or overlaps the voters"
+    if sorted(i[0] for i in ids) != sorted(nodes + w["lrn"]):
+        return "RaftIDs keys differ from RaftNodes + learners"
     idm = dict(ids)
     for (n, rid, _t) in rm:
         if n not in nodes:
@@ -69,7 +71,7 @@ def inv_fail(w, replica):
 def oracle_sequence(sid, lines, outs):
     """lines: [(id, kind, fields)], outs: {id: out}. The property itself on the implementation's writes."""
     fails = []
-    stats = dict(writes=0, ok_writes=0, adds=0, marks=0, finishes=0, swaps=0, panics=0)
+    stats = dict(writes=0, ok_writes=0, adds=0, marks=0, finishes=0, swaps=0, panics=0, learner_changes=0)
     replica = None
     ans = {}
     stored = None
@@ -150,6 +152,12 @@ def oracle_sequence(sid, lines, outs):
                     fail(cid, "replica dropped without having been marked removing", dict(kind=kind, before=before, written=w))
             if sorted(w["nodes"]) == sorted(before["nodes"]) and w["nodes"] != before["nodes"]:
                 stats["swaps"] += 1
+            if w["lrn"] != before["lrn"]:
+                stats["learner_changes"] = stats.get("learner_changes", 0) + 1
+                if kind[0] != "L":
+                    fail(cid, "learner list changed by the main placement driver", dict(kind=kind, before=before, written=w))
+            elif kind[0] == "L" and (w["nodes"] != before["nodes"] or w["rm"] != before["rm"]):
+                fail(cid, "the learner driver changed the voter set or the removal marks", dict(kind=kind, before=before, written=w))
             if w["ok"]:
                 stats["ok_writes"] += 1
                 bids = set(before["ids"])
@@ -165,7 +173,7 @@ def oracle_sequence(sid, lines, outs):
                 maxseen = max(maxseen, w["max"])
                 before = w
         stored = state["info"]
-        if any(stored[k] != before[k] for k in ("nodes", "ids", "rm", "max")):
+        if any(stored[k] != before[k] for k in ("nodes", "ids", "rm", "max", "lrn")):
             # the register content must be the last successful write (time stamps projected)
             fail(cid, "harness: register content is not the last successful write", dict(stored=stored, last=before))
         dn = state["dn"]
@@ -359,7 +367,9 @@ def run(ctx):
              "(under/over-replicated, optional pending removal, id gaps), events N (registered node set), A (HTTP answers of data nodes), "
              "T (clock), C (doCheckNamespaces full/single), M/D/R/F (bare handleNamespaceMigrate/addNamespaceToNode/"
              "removeNamespaceFromNode/removeNamespaceFromRemovings), X (register update failures), O (auto balance), "
-             "B (rebalanceNamespace), K/P (MarkNodeAsRemoving/processRemovingNodes); Z = namespace creation on an empty register "
+             "B (rebalanceNamespace), K/P (MarkNodeAsRemoving/processRemovingNodes), the learner placement driver on the same register: "
+             "LC (doCheckNamespacesForLearner), LS (start/stop key), LA/LL/LR/LX (bare addNsLearnerToNode/updateNsLearnerLeader/"
+             "removeNsLearnerFromNode/removeNsAllLearners), learner nodes joining/leaving in N; Z = namespace creation on an empty register "
              "(1..6 partitions). evaluations = events compared with the model; "
              "non-trivial = sequence with at least one register update attempt, distinct by hash of its event lines.",
         histogram=hist_all,
@@ -367,7 +377,8 @@ def run(ctx):
         samples=samples,
     ), assumptions=[
         "one namespace with one partition per coordinator instance; at most one node being removed from the cluster at a time "
-        "(with two, checkIfAnyPending's result follows Go map order)",
+        "(with two, checkIfAnyPending's result follows Go map order); at most one learner node waiting to be added per learner "
+        "check (with two, their ids follow Go map order); data nodes and learner nodes have disjoint identities",
         "the placement function's proposal is taken from the implementation and fed to the model as an oracle answer "
         "(C17 is about the placement itself); clock advances are multiples of 3 minutes, never equal to a wait interval",
         "MaxRaftID stays below 2^63 (the model's ids are unbounded naturals)",
